@@ -348,6 +348,7 @@ func cmdCheck(args []string) int {
 	solverTime := 0.0
 	var slowest []*Obligation
 	covers := 0
+	coversSat := 0
 	for _, o := range obls {
 		solverTime += o.TimeS
 		if o.Result == "disagree" || o.Result == "error" {
@@ -359,6 +360,9 @@ func cmdCheck(args []string) int {
 			bySolver[o.Solver]++
 			if o.Cover {
 				covers++
+				if o.Result == "sat" {
+					coversSat++
+				}
 			}
 			slowest = append(slowest, o)
 			continue
@@ -572,6 +576,8 @@ func cmdCheck(args []string) int {
 			"solver_time_s":            round3(solverTime),
 			"slowest":                  slow,
 			"cover_checks":             covers,
+			"cover_checks_answered_sat": coversSat,
+			"cover_checks_note":        "a cover (vacuity) obligation passes when the solvers do not refute it: answered sat = a witness exists; the remainder were not refuted within the limit (quantified hypotheses), which is weaker",
 			"undischarged":             failedNames,
 			"known_findings_seen":      knownIDs,
 			"lemmas":                   pc.Lemmas,
